@@ -141,15 +141,15 @@ class DeterministicChoice(Contract):
 
     def clause_props(self, name, kind):
         if name.startswith("ensures.member+interval"):
-            return ("C03", "C16", "C10", "C12")
+            return ("C03", "C16", "C10", "C12", "C15")
         if name.startswith("ensures.member+floor"):
-            return ("C03", "C16", "C12")
+            return ("C03", "C16", "C12", "C15")
         if name.startswith("ensures.") or name.startswith("raises."):
             return ("C16",)
         if name.startswith("frame.arguments"):
             return ("C16", "C01")
         if name.startswith("frame.deterministic"):
-            return ("C01", "C10", "C12")
+            return ("C01", "C10", "C12", "C15", "C09")
         if name.startswith("frame.delegates"):
             return ("C16",)
         return ("C03", "C16")
